@@ -46,6 +46,13 @@ func T(t Tensor, axes ...int) (retVal Tensor, err error) {
 func Transpose(t Tensor, axes ...int) (retVal Tensor, err error) {
 	switch tt := t.(type) {
 	case *Dense:
+		// SafeT copies the storage as it lies; for a non-contiguous view that includes
+		// the gaps of its window, which the physical transpose cannot cope with
+		if !tt.DataOrder().IsContiguous() && tt.IsMaterializable() {
+			if m, ok := tt.Materialize().(*Dense); ok {
+				tt = m
+			}
+		}
 		var ret *Dense
 		if ret, err = tt.SafeT(axes...); err != nil {
 			return
